@@ -232,6 +232,7 @@ def step (d : Drv) (line : String) : Drv × List String :=
         | .ok s' => respond { d with s := s', prev := [] } line "accept" [] true
         | .error m => respond d line ("reject:" ++ m.replace " " "_") [] true
       | "dump" => respond d line "accept" [] true
+      | "restart" => respond d line "accept" [] true   -- a process restart between blocks changes nothing (the model has no memory outside its state)
       | "inspect" => respond d line "accept" [] false   -- the model's listings are total (Props/C09Listings runQuery_never_internal)
       | _ => respond d line "bad-op" [] false
 
